@@ -345,6 +345,14 @@ Section Bridge.
       rewrite cls_name. reflexivity.
   Qed.
 
+  (* a bound argument that IS the Undefined singleton is not assigned at all (fail-fast mode) *)
+  Lemma ff_body_skips_undefined c h n v s :
+    undefined_ref v = true -> ff_body c h (PStr n, v) tt s = (s, inl tt).
+  Proof.
+    intro Hv. unfold undefined_ref in Hv. unfold ff_body. unfold bindM at 1. unfold tryM. unfold bindM at 1. unfold bindM at 1.
+    unfold ret at 1. rewrite Hv. reflexivity.
+  Qed.
+
   Lemma ff_loop c ff : forall l s,
       names_plain l = true -> no_undefined l = true -> inv s ->
       for_acc (ff_body c (init_heap c ff)) (pairs l) tt s =
@@ -735,5 +743,8 @@ Proof. split; vm_compute; reflexivity. Qed.
 
 Print Assumptions generated_init_is_construct.
 Print Assumptions model_setattr_is_source.
+Print Assumptions ff_body_skips_undefined.
+Print Assumptions ff_loop.
+Print Assumptions set_defaults_run.
 Print Assumptions init_dom_satisfiable.
 Print Assumptions order_disagreement.
